@@ -245,6 +245,12 @@ def c_fit(ctx, case):
     import dask.array as da
 
     X, y = case["X"], np.asarray(case["y"])
+    p_ = case["ubm"]
+    tot = ref.gmm_stats(np.asarray(X, float).reshape(-1, p_["F"]), p_["weights"], p_["means"], p_["variances"])["n"]
+    if float(np.min(tot)) < 1e-3:
+        # a UBM component that no training row reaches has no defined subspace rows (ISV/JFA training divides by its
+        # count: LinAlgError or non-finite rows); training sets with every component alive are the stated domain
+        ctx.discard("a UBM component without data in the whole training set")
     a = sut.make_fa(case, em_iterations=case["em"])
     b = sut.make_fa(case, em_iterations=case["em"])
     data = X
